@@ -540,6 +540,26 @@ class Recorder:
                 rec.end(state, r0)
             return r
 
+        orig_cleanup = sm._clean_up_state
+
+        def cleanup(state):
+            import datetime as _dt
+
+            now = Clock.now()
+            aged = [u for u, f in state.flow_states.items() if (now - f.status_updated) > _dt.timedelta(seconds=5)]
+            before = (list(state.flow_states), list(state.actions))
+            r0 = rec.begin(state, ["cleanup", aged])
+            try:
+                r = orig_cleanup(state)
+            except BaseException as e:
+                rec.end(state, r0, e)
+                raise
+            rec.end(state, r0)
+            if (list(state.flow_states), list(state.actions)) == before:
+                rec.cases.pop()      # nothing discarded, nothing reordered: not a case
+            return r
+
+        sm._clean_up_state = cleanup
         orig_start = sm._start_flow
 
         def start_flow(state, flow_state, event_arguments):
@@ -783,6 +803,13 @@ class Oracle:
                     if n != f.activated:
                         self.inv_viol.append([step, f"reference instance of `{f.flow_id}`: activated={f.activated} but {n} entries of live instances"])
             self.inv_checked += 1
+        # a running instance whose parent link points to a DISCARDED instance: nothing bounds its lifetime
+        # any more (the clean-up of old instances removed the only link to its starter / its activators)
+        for uid, f in fs.items():
+            if _listening(f) and f.parent_uid and f.parent_uid not in fs:
+                V.append(("running-instance-lost-its-parent-link", step,
+                          f"instance of `{f.flow_id}` is {f.status.name} (activated={f.activated}) but its parent instance {f.parent_uid.split(')')[0]}) was discarded by the state clean-up",
+                          {"instance": uid, "parent": f.parent_uid}))
         # (3') a running restarted instance (child of an instance of the same flow) needs a reference
         #      instance that is still activated by a running flow
         for uid, f in fs.items():
@@ -880,6 +907,14 @@ def run_one(sm, fl, U, src, history, policy):
         res["error"] = "hang:step-budget"
     except Exception as e:
         res["error"] = "exception:" + type(e).__name__ + ":" + str(e)[:300]
+        # an exception that escapes run_to_completion THROUGH one of the lifetime operations means that the
+        # operation did not do its job (children / activated instances are left running): a C06 finding
+        raised = [c for c in rec.cases if "exc" in c]
+        if raised:
+            c = raised[-1]
+            orc.viol.append(("lifetime-operation-raises:" + c["op"][0] + ":" + c["exc"], step,
+                             f"{type(e).__name__} {str(e)[:120]} raised by the lifetime operation `{c['op'][0]}` escapes run_to_completion; "
+                             "the flows it had to stop keep running", {"op": c["op"][:3], "exception": c["exc"]}))
     res["steps"] = step
     res["cases"] = rec.cases
     res["guards"] = rec.guards
@@ -1113,7 +1148,11 @@ def case_term(rec):
                 exp_t = (f"(@inl (st * option uid) exn ({st_term(rec['post'], rec['emit'])}, "
                          f"{C.coq_option(coq_N(uid(eff))) if eff is not None else 'None'}))")
             return f"({pre_t}, {ev_t}, {match_t}, {exp_t})", None
-        if op[0] == "startlink":
+        if op[0] == "cleanup":
+            for u in op[1]:
+                uid(u)
+            op_t = f"(OCleanup {C.coq_list([coq_N(uid(x)) for x in op[1]])})"
+        elif op[0] == "startlink":
             op_t = f"(OStartLink {uid(op[1])} {uid(op[2])} {C.coq_Z(op[3])})"
         elif op[0] == "abort":
             op_t = f"(OAbort {uid(op[1])} {C.coq_bool(op[2])})"
